@@ -112,7 +112,8 @@ type Sim struct {
 	prio       [maxG]int
 	changeAt   [4]int
 
-	closed  [256]uintptr
+	closed  [4096]uintptr
+	closedV [4096]reflect.Value // keeps closed channels alive so that their address is not reused
 	nclosed int
 	ctxs    [8]context.Context
 	nctx    int
@@ -379,16 +380,19 @@ func hookClose(slot *scriggo.SimSlot, ch reflect.Value) {
 		return
 	}
 	if ch.Kind() == reflect.Chan && !ch.IsNil() {
-		g.sim.markClosed(ch.Pointer())
+		g.sim.markClosed(ch)
 	}
 }
 
 //go:norace
-func (s *Sim) markClosed(p uintptr) {
+func (s *Sim) markClosed(ch reflect.Value) {
 	if s.nclosed < len(s.closed) {
-		s.closed[s.nclosed] = p
+		s.closed[s.nclosed] = ch.Pointer()
+		s.closedV[s.nclosed] = ch
 		s.nclosed++
+		return
 	}
+	s.Mismatch = "closed-channel table full"
 }
 
 //go:norace
